@@ -27,7 +27,7 @@ PROPS = {
     "C05": dict(kind="lib", level="exploration", modes=[("c05", 8000, 90000)], floor=400,
                 rule="seeded random models x 2-6 assumption lists per solver (all predicate kinds, duplicates, implied, directly contradictory, out-of-domain constants); verdict/core/restoration judged against the enumerator; non-trivial = >=2 solutions or >=1 conflict"),
     "C12": dict(kind="lib", level="exploration", modes=[("c12", 12000, 180000)], floor=500,
-                rule="seeded random models; after every posting prefix the reported bounds of every variable, 3 random views and literal values are compared with the hull of the prefix model's solutions; non-trivial = some prefix tightened a bound"),
+                rule="seeded random models; after every posting prefix the reported bounds of every variable, 3 random views and literal values are compared with the hull of the prefix model's solutions; in three shapes: all variables first, variables created only just before the first constraint that mentions them, and the latter with solves between the postings (satisfy, satisfy interrupted after 0-19 polls, satisfy under 1-2 assumptions) after which the bounds are read and compared again; non-trivial = some prefix tightened a bound"),
     "C07": dict(kind="lib", level="exploration", modes=[("c07", 3000, 36000)], floor=150, case_timeout=90,
                 rule="seeded models near the phase transition, each solved under K configurations (quick 8, thorough 40: resolver, minimisation, restart sequence/intervals/coefficients, learned-nogood limits/threshold/sorting, tiny max activity, seed, brancher); solution set of every configuration compared with the enumerator; 10% deep-chain models (implication chain of 507-540 links) on which every configuration answers satisfiability and the optimum of a counting variable (fresh solver or the one that has just answered satisfy); non-trivial = some configuration had >=3 conflicts"),
     "C08": dict(kind="lib", level="exploration", modes=[("c08", 5400, 7200)], floor=900, case_timeout=10,
